@@ -285,3 +285,8 @@ func BoxedNew(x any) any { return PickNew[*int](x) }
 func UnwrapAssert(x any) *int { return AssertT[*int](x) }
 
 func ZeroPtr() *int { return ZeroT[*int]() }
+
+// A type parameter without type terms (comparable / any / methods) can be instantiated with an interface or pointer.
+func First[T comparable](xs []T) T { return xs[0] }
+
+func FirstErr(errs []error) error { return First(errs) }
